@@ -1,6 +1,6 @@
 (* PV.C01.Examples — non-vacuity: concrete non-trivial inputs meeting the hypotheses of the theorems. *)
 From Coq Require Import QArith List Bool PArith Arith Lia.
-From PV Require Import Base.PyData Base.Expr Base.Interp Base.Stmts C01.Model C01.Check C01.Refuted C01.ProofsParams C01.Parser C01.Des.
+From PV Require Import Base.PyData Base.Expr Base.Interp Base.Stmts C01.Model C01.Check C01.Refuted C01.ProofsParams C01.Parser C01.Des C01.PrecPrinter C01.ParserProofs.
 Import ListNotations.
 
 (* A = THETA(1)
@@ -173,3 +173,16 @@ Example des_guard_rejects :
   des_guard [(1%positive, [mkDT false 11%positive 1%positive; mkDT false 11%positive 1%positive]);
              (2%positive, [mkDT true 11%positive 1%positive])] = false.
 Proof. vm_compute. reflexivity. Qed.
+
+(* parse_print_prec: the minimal-parentheses form of  -A**2 + (A + B)*X - (B - X)/2**(-A)  and of ex_prog *)
+Definition ex_e : expr :=
+  Add (Add (Neg (Fn2 F_POW (Sym sA) (Num 2))) (Mul (Add (Sym sA) (Sym sB)) (Sym sX)))
+      (Neg (Div (Add (Sym sB) (Neg (Sym sX))) (Fn2 F_POW (Num 2) (Neg (Sym sA))))).
+Example prec_printer_nonvacuous :
+  wfe ex_e = true /\
+  prE ex_e = [TMinus; TId sA; TPow; TNum 2; TPlus; TLp; TId sA; TPlus; TId sB; TRp; TStar; TId sX; TMinus;
+              TLp; TId sB; TMinus; TId sX; TRp; TSlash; TNum 2; TPow; TMinus; TId sA] /\
+  p_add (40 * esize ex_e + 6) (prE ex_e) = Some (ex_e, []) /\
+  wf_body ex_prog = true /\ length (prP_body ex_prog) = 78%nat /\
+  p_body (40 * bsize ex_prog) (prP_body ex_prog) = Some (ex_prog, []).
+Proof. repeat split; vm_compute; reflexivity. Qed.
